@@ -205,7 +205,10 @@ def m_obj(x: object, y: int = 3{kw}):
     glb = {"TICK": TICK, "ACCEPT": ACCEPT, "ENTERED": ENTERED, "Boom": Boom, "recurse": recurse, "call_next": call_next, "__name__": "verif_rw"}
     leafs(glb)
     ov = Ovld()
-    for n in ("m_int", "m_str", "m_tup", "m_obj"):
+    # without the catch-all method in a third of the scenarios: recurse / call_next then fail to find a method, and
+    # the error must surface at the line of the call site as written
+    leaf_names = ("m_int", "m_str", "m_tup", "m_obj") if (_uid[0] % 3) else ("m_int", "m_str", "m_tup")
+    for n in leaf_names:
         ov.register(glb[n])
     src = src_for("m_list", "recurse", "call_next", "F")
     fname = f"<verif-rw-{_uid[0]}>"
@@ -218,7 +221,7 @@ def m_obj(x: object, y: int = 3{kw}):
     leafs(rglb)
     ov_all = Ovld()
     ov_rest = Ovld()
-    for n in ("m_int", "m_str", "m_tup", "m_obj"):
+    for n in leaf_names:
         ov_rest.register(rglb[n])
         ov_all.register(rglb[n])
     rsrc = src_for("m_list", "REC", "NXT", "REC")
@@ -287,6 +290,13 @@ def worker(payload):
         for f in g.used:
             out["hist"][f] = out["hist"].get(f, 0) + 1
         wit = {"kind": "rewrite", "lines": lines, "closure": closure, "kwdefault": kwdefault, "seed_args": None}
+        # the generated body must be valid Python as written (e.g. the user's own walrus inside the iterable of a
+        # comprehension is not): programs Python itself rejects are not the rewriter's business
+        try:
+            compile("def _probe(x, y=3, *, tag=0, w=0):\n" + "\n".join("    " + l for l in lines) + "\n", "<probe>", "exec")
+        except SyntaxError:
+            out["hist"]["generated body rejected by Python itself"] = out["hist"].get("generated body rejected by Python itself", 0) + 1
+            continue
         try:
             ov, ref, log, src, fname, rname = build(rng, lines, g.used, closure, kwdefault)
         except Exception as e:  # noqa
